@@ -615,7 +615,7 @@ class ServerProxy(XMLServerProxy):
         self.__history = history
 
         # Global custom headers are injected into Transport
-        self.__transport.push_headers(headers or {})
+        self.__transport.push_headers({} if headers is None else headers)
 
     def _request(self, methodname, params, rpcid=None):
         """
